@@ -39,8 +39,8 @@ func Profile() *world.Profile {
 		ActionPm:   200,
 		NotFoundPm: 500,
 		BeforesPm:  200,
-		AutoHeadPm: 200,
-		MinRoutes:  2, MaxRoutes: 10, MaxRouteHs: 3,
+		AutoHeadPm: 200, WrapperPm: 200, WrapperRecPm: 600,
+		MinRoutes: 2, MaxRoutes: 10, MaxRouteHs: 3,
 		Envs:      []int{0, 1, 2},
 		HeadersPm: 120,
 		NamedPm:   500,
@@ -202,6 +202,9 @@ func (Engine) Run(t *tape.Tape, o eng.Opts) *eng.Result {
 			cfg.StallCountSite, cfg.StallHorizon = 99, 500
 		}
 	}
+	// What one tick of the virtual clock stands for (matters only to code that reads the clock or
+	// arms timers: instrumented builds route package time to the simulator).
+	sched.SetTick([]time.Duration{time.Millisecond, 100 * time.Microsecond, 10 * time.Millisecond, 100 * time.Millisecond}[sw.Intn(4)])
 	freshTwin := sw.Intn(5) == 1
 	if cfgLong {
 		cfg.MaxSteps = world.StepCap(80000)
@@ -370,6 +373,14 @@ func (Engine) Run(t *tape.Tape, o eng.Opts) *eng.Result {
 			sched.SetSolo(nil)
 			cq := reqs[i][k]
 			a, b := cq.Outcome(), tq.Outcome()
+			if cq.Local.TimersFired > 0 && a != b {
+				// A timer the framework armed during this request became due while it was in flight
+				// (it was slow: stalled, or others slept). Served alone it is never slow, so whatever
+				// the callback did (a log line, a timeout answer) is a legitimate difference for this
+				// one request; every other request, the race detector and the probes still judge it.
+				res.Probes["twin_comparison_skipped:own_timer_fired"]++
+				a = b
+			}
 			if a != b {
 				mismatches++
 				if mismatches <= 2 {
@@ -487,11 +498,14 @@ func (Engine) Run(t *tape.Tape, o eng.Opts) *eng.Result {
 				res.Trace = append(res.Trace, "    => "+q.Outcome())
 			}
 		}
-		sl := ""
+		var sl strings.Builder
 		for _, s := range sr.Log {
-			sl += itoaS(int(s.Task)) + ":" + world.SiteName(int(s.Site)) + " "
+			sl.WriteString(itoaS(int(s.Task)))
+			sl.WriteByte(':')
+			sl.WriteString(world.SiteName(int(s.Site)))
+			sl.WriteByte(' ')
 		}
-		res.Trace = append(res.Trace, "SCHEDULE "+sl)
+		res.Trace = append(res.Trace, "SCHEDULE "+sl.String())
 	}
 	return res
 }
